@@ -294,6 +294,32 @@ def run(ck):
             fe, fx = ck.prog.method(cls, "__enter__"), ck.prog.method(cls, "__exit__")
             check_enter(sub, agg, cls, fe, sub.ref, havoc_regs(sub, sub.fresh()), cls.name + ".__enter__", (cls.module.relpath, cls.name + ".__enter__"))
             check_exit(sub, agg, cls, fx, sub.ref, sub.fresh(), cls.name + ".__exit__", (cls.module.relpath, cls.name + ".__exit__"))
+            # the inductive step on the subclass' refusing paths: a configuration call the subclass rejects (FakeBLE raises
+            # NotImplementedError from setters it overrides, also when an inherited helper reaches them) leaves every shadow equal to
+            # its register - otherwise the next __enter__ programs what was refused
+            from . import c03
+            from ..tables import contract as _ct
+            for name, (kind, gen) in _ct.SETTERS.items():
+                try:
+                    func = sub.setter(name, kind)
+                except Exception:  # noqa
+                    continue
+                if func is None:
+                    continue
+                inits = [o for o in sub.init_outs if o.kind == "return"][:1]
+                for label, args, _expect in gen():
+                    if not inits:
+                        break
+                    # from the state the subclass' constructor establishes (a FakeBLE never has auto-ack or dynamic payloads on: the
+                    # setters that could change that are the ones it refuses)
+                    st0 = inits[0].state.fork()
+                    st0.trace = []
+                    for out in sub.run(func, args, st0):
+                        if out.kind == "raise":
+                            for r in regmap.CONFIG_REGS:
+                                ok, det = sub.shadow_matches(out.state, r)
+                                agg.add("R09.7", func, "%s: shadow of %s still equals the register when the call is refused" % (cls.name, regname(r)), ok,
+                                        "%s.%s raises %s: %s - the next `with` block programs the refused value" % (cls.name, label, out.value.exc, det))
     # R09.6 constructors establish the invariant
     for rd in radios:
         init = rd.cls.lookup("__init__")[1]
